@@ -1074,9 +1074,11 @@ def run_impl_resilient(harness_exe, histories, timeout=IMPL_BATCH_TIMEOUT):
     start = 0
     start_stuck = False
     hangs = 0
+    slow = 0
     while start < len(histories):
         text = "\n".join("\n".join(h) for h in histories[start:]) + "\n"
-        lines, rc = run_batch(harness_exe, text, timeout)
+        nops = sum(len(h) for h in histories[start:])
+        lines, rc = run_batch(harness_exe, text, max(timeout, 30 + nops // 500))
         idx = 0
         k = start
         while k < len(histories):
@@ -1099,6 +1101,17 @@ def run_impl_resilient(harness_exe, histories, timeout=IMPL_BATCH_TIMEOUT):
             start = k
             continue
         start_stuck = False
+        if rc == -999:
+            # the batch did not finish in time.  Under load that is not an observation: run the history it stopped in ALONE;
+            # only if it does not finish by itself either is it a hang of the implementation (a crash observation)
+            alone, rc1 = run_batch(harness_exe, "\n".join(histories[k]) + "\n", 45)
+            if rc1 == 0 and len(alone) >= len(histories[k]):
+                out[k] = alone[:len(histories[k])]
+                start = k + 1
+                slow += 1
+                if slow > 20:
+                    raise RuntimeError("history harness: batches keep timing out although single histories finish (machine overloaded?)")
+                continue
         crashes.append((k, rc))
         start = k + 1
         if rc == -999:
@@ -1152,7 +1165,7 @@ def run_correspondence(ctx, histories, harness_exe, model_exe=None, label="hist"
     nchunks = max(1, min(workers, len(histories) // 50))
     bounds = [len(histories) * i // nchunks for i in range(nchunks + 1)]
     with ThreadPoolExecutor(max_workers=workers) as ex:
-        fm = ex.submit(run_batch, model_exe, text)
+        fm = ex.submit(run_batch, model_exe, text, 3600)
         futs = [ex.submit(run_impl_resilient, harness_exe, histories[bounds[i]:bounds[i + 1]]) for i in range(nchunks)]
         mlines, mrc = fm.result()
         ih = []
